@@ -163,12 +163,18 @@ def gen_mw(rng, ids, arg_pool, res_pool, err_pool, nargs, has_ret, mode, allow_a
         if rng.random() < 0.5:
             m["post"].append({"k": "seterr", "pos": 1 if has_ret else 0,
                               "err": rng.choice(err_pool + [None, None]) if err_pool else None})
-    if allow_arity and rng.random() < 0.06:
-        which = rng.choice(["pre", "post"])
-        m[which].append(rng.choice([{"k": "trunc", "pos": rng.randrange(0, 2)}, {"k": "app"}]))
     if not m["pre"] and not m["post"]:
         m["pre"].append({"k": "hdr"})
     return m
+
+
+def add_arity_break(rng, lists):
+    """exactly one arity-changing rewrite in the whole request (a second one could restore the count with a value
+    of the wrong dynamic type, which Go's reflect rejects and the model does not describe)"""
+    mws = [m for l in lists for m in l]
+    if mws:
+        m = rng.choice(mws)
+        m[rng.choice(["pre", "post"])].append(rng.choice([{"k": "trunc", "pos": rng.randrange(0, 2)}, {"k": "app"}]))
 
 
 def gen_list(rng, n, *a):
@@ -661,6 +667,8 @@ def gen_rpc_case(rng, t, profile):
     q["cctor"] = gen_list(rng, lens[1], *ga)
     q["pctor"] = gen_list(rng, lens[2], *ga)
     q["padd"] = gen_list(rng, lens[3], *ga)
+    if allow_arity:
+        add_arity_break(rng, [q["prov"], q["cctor"], q["pctor"], q["padd"]])
     q["cstyle"], q["pstyle"], q["provstyle"] = gen_style(rng), gen_style(rng), gen_style(rng)
     if rng.random() < 0.25:
         q["poison"] = [{"id": 50 + i, "pre": [], "post": []} for i in range(rng.randrange(1, 4))]
@@ -700,6 +708,8 @@ def gen_scope_case(rng, t, profile):
     q["pctor"] = gen_list(rng, lens[1], *gp)
     q["sprov"] = [] if q["shared"] else gen_list(rng, lens[2], *gs)
     q["sctor"] = gen_list(rng, lens[3], *gs)
+    if allow_arity:
+        add_arity_break(rng, [[] if q["shared"] else q["pprov"], q["pctor"], q["sprov"], q["sctor"]])
     q["pstyle"], q["sstyle"], q["provstyle"] = gen_style(rng), gen_style(rng), gen_style(rng)
     if rng.random() < 0.3:
         q["poison"] = [{"id": 50 + i, "pre": [], "post": []} for i in range(rng.randrange(1, 4))]
@@ -832,17 +842,48 @@ TAG_BITS = {1: "pubsub", 2: "panic", 4: "append_in_place", 8: "poisoned", 16: "d
             64: "subscriber_list_changed_after_construction", 128: "inherited_method"}
 
 
+def run_explain(rundir, case, name):
+    """the model's own trace for one case (JMiddleware.explain), decoded; for the replay file of a rejected case"""
+    import os
+    import re
+    d = os.path.join(rundir, name)
+    os.makedirs(d, exist_ok=True)
+    flat = vlib.encode_tokens([case])
+    with open(os.path.join(d, "Data.v"), "w") as fh:
+        fh.write("From Coq Require Import Uint63 PArray.\nOpen Scope uint63_scope.\n")
+        fh.write("Definition data : array int := [| " + "; ".join(map(str, flat)) + " | 0 |].\n")
+    with open(os.path.join(d, "Run.v"), "w") as fh:
+        fh.write("From Coq Require Import ZArith List.\nFrom FV Require Import Judge.Wire Judge.JMiddleware.\n"
+                 "Require Import Data.\nImport ListNotations.\nOpen Scope Z_scope.\nSet Printing Depth 100000000.\n"
+                 "Definition M := Eval vm_compute in explain (decode data).\nPrint M.\n")
+    q = "-Q %s FV -Q . \"\"" % os.path.join(vlib.COQ, "theories")
+    rc, out, err = vlib.sh("coqc %s Data.v && coqc %s Run.v" % (q, q), cwd=d, timeout=600)
+    m = re.search(r"M\s*=\s*(.*?)\n\s*:\s*list Z", out, re.S)
+    if rc != 0 or not m:
+        return {"error": (out + err)[-800:]}
+    v = [int(x) for x in re.findall(r"-?\d+", m.group(1).replace("%Z", ""))]
+    ev, i = [], 0
+    while i < len(v) and v[i] != -7:
+        n = v[i + 2]
+        ev.append([["enter", "exit", "core", "ret"][v[i]], v[i + 1], v[i + 3:i + 3 + n]])
+        i += 3 + n
+    rest = v[i + 1:]
+    return {"events": ev, "outcome": "panic" if rest[:1] == [0] else rest[1:],
+            "note": "values are interned integers (0 = nil, position 0 = bit set of mw headers), see judge_case_* in tools/props/c16.py"}
+
+
 def run_judge(ctx, judge_cases, judge_meta, stats):
     verdicts = vlib.run_judge(ctx.rundir, "JMiddleware", "judge", judge_cases, shard=400000) if judge_cases else []
     tags = collections.Counter()
     mism = 0
-    for (rep, ci, run, oracle_failed), v in zip(judge_meta, verdicts):
+    for (rep, ci, run, oracle_failed), v, jc in zip(judge_meta, verdicts, judge_cases):
         if v < 0:
             mism += 1
             if oracle_failed:
                 continue       # the oracle already reported the failing input
+            mt = run_explain(ctx.rundir, jc, "explain%d" % mism) if mism <= 3 else None
             ctx.violation("C16 correspondence: Model/Middleware.v does not reproduce the observed trace",
-                          dict(rep, call=ci, observed=run, no_failing_input_found=True,
+                          dict(rep, call=ci, observed=run, model_trace=mt, no_failing_input_found=True,
                                broken="correspondence JMiddleware.judge (theorems of Props/C16.v are about this model)"))
         else:
             tags["rpc" if not v & 1 else "pubsub"] += 1
